@@ -343,6 +343,9 @@ func shapeReal(n ast.Node, b *strings.Builder, depth int) {
 	if len(kids) == 0 {
 		return
 	}
+	// fields in name order (a tape lists children in source order, a struct in declaration order;
+	// the order of DIFFERENT fields is not part of the skeleton, the order inside a list is)
+	sort.SliceStable(kids, func(i, j int) bool { return kids[i].Field < kids[j].Field })
 	b.WriteByte('(')
 	for i, c := range kids {
 		if i > 0 {
@@ -367,8 +370,10 @@ func shapeExpected(n *xNode, b *strings.Builder) {
 	if len(n.Kids) == 0 {
 		return
 	}
+	kids := append([]*xNode(nil), n.Kids...)
+	sort.SliceStable(kids, func(i, j int) bool { return kids[i].Field < kids[j].Field })
 	b.WriteByte('(')
-	for i, c := range n.Kids {
+	for i, c := range kids {
 		if i > 0 {
 			b.WriteByte(' ')
 		}
@@ -446,6 +451,8 @@ func sameToken(class string, a, b sigTok) bool {
 		return a.Kind == b.Kind
 	case "pk":
 		return b.Kind == string(token.TokenIdent) && a.Kind == b.Kind && char.EqualFold(a.Raw, b.Raw)
+	case "tn": // a built-in type name written as a (possibly quoted) identifier: decoded name, case-insensitively
+		return a.Kind == b.Kind && char.EqualFold(a.Val, b.Val)
 	case "id", "param", "str", "bytes":
 		return a.Kind == b.Kind && a.Val == b.Val
 	case "int", "float":
